@@ -33,6 +33,11 @@ def generate(rng, tier, shard, nshards):
             yield event("wop", dict(base, fn=fn, B=B, style2=style2), site=f"WFSA.{fn}", feat=feat)
         for fn in ("reverse", "renumber", "rename", "spawn_all"):
             yield event("wop", dict(base, fn=fn), site=f"WFSA.{fn}", feat=feat)
+        if cls == "field":
+            yield event("wop", dict(base, fn="multiplicity", m=rng.choice([[1, 2], [2, 1], [3, 4], [0, 1]])),
+                        site="field.WFSA.multiplicity", feat=feat)
+            yield event("wop", dict(base, fn="threshold", t=rng.choice([[1, 2], [3, 4], [1, 4], [1, 1]])),
+                        site="field.WFSA.threshold", feat=feat)
         if srn in ("Sat3", "Sat2", "Bool"):
             for fn in ("star", "kleene_plus"):
                 yield event("wop", dict(base, fn=fn, L=min(L, 3)), site=f"WFSA.{fn}", feat=feat)
